@@ -48,10 +48,13 @@ def gen_ops(rng, names):
     return ops
 
 
-def ops_text(ops, shapes):
-    """configuration text: audience sections introduce members, interpretation sections hold clauses"""
+def ops_text(ops, shapes, like_ok=False):
+    """configuration text: audience sections introduce members, interpretation sections hold clauses.
+    like_ok: a member may be introduced by `expects like <earlier member>` (it takes the earlier member's predicate and
+    modality — and nothing of its interpretation); only where the reports are scripted, not computed from the predicates"""
     out = []
     sec = None
+    introduced = []
 
     def switch(s):
         nonlocal sec
@@ -66,7 +69,12 @@ def ops_text(ops, shapes):
             switch("audience")
             au, mod, pred, _ = shapes[o[1]]
             out.append("  %s audits %s" % (o[1], au))
-            out.append("  %s expects %s: %s" % (o[1], mod, pred))
+            if like_ok and introduced and o[1] not in introduced and (len(out) + len(ops)) % 3 == 0:
+                out.append("  %s expects like %s" % (o[1], introduced[(len(out)) % len(introduced)]))
+            else:
+                out.append("  %s expects %s: %s" % (o[1], mod, pred))
+            if o[1] not in introduced:
+                introduced.append(o[1])
         elif o[0] == "I":
             switch("interpretation")
             out.append("  ignore %s" % RES[o[1]])
@@ -136,7 +144,9 @@ def run(tier, seed):
         nm = names[:rng.range(1, 3)]
         ops = gen_ops(rng, nm)
         shapes = {n: SHAPES[rng.pick(shape_names)] for n in nm}
-        text = ops_text(ops, shapes)
+        text = ops_text(ops, shapes, like_ok=True)
+        if "expects like" in text:
+            rep.count("in-process:member introduced by `expects like`")
         reports = []
         for _ in range(rng.range(0, 10)):
             reports.append((rng.pick(nm), rng.pick([0, 2, 3, 3, 0, 2, 1] if rng.chance(1, 6) else [0, 2, 3, 3])))
